@@ -25,3 +25,5 @@ mod acct;
 mod c21_revertible;
 #[cfg(kani)]
 mod c22_balances;
+#[cfg(kani)]
+mod c45_glv;
